@@ -14,6 +14,7 @@ import (
 	"verif/harness/fidx"
 	"verif/harness/forge"
 	"verif/harness/hostilex"
+	"verif/harness/hostx"
 	"verif/harness/identx"
 	"verif/harness/idsx"
 	"verif/harness/lockx"
@@ -28,6 +29,7 @@ import (
 var commands = map[string]func(args []string){}
 
 func init() {
+	commands["host"] = hostx.Run
 	commands["api"] = apix.Run
 	commands["conc"] = concx.Run
 	commands["conc-clock"] = concx.ClockCmd
